@@ -117,13 +117,25 @@ def body_family(prog, root_key):
     i = 0
     while i < len(fam):
         for c in fam[i].calls:
-            for g in c.gbodies:
+            for g in list(c.gbodies) + fn_items_passed(c):
                 gb = prog.body(g)
                 if gb is not None and g not in seen:
                     seen.add(g)
                     fam.append(gb)
         i += 1
     return fam
+
+
+def fn_items_passed(c):
+    """workspace functions handed to a callee BY VALUE (`.map(helper)`, `.filter_map(Self::convert)`): the argument's type is the
+    function item type, printed `fn(..) -> .. {path}`"""
+    import re
+    out = []
+    for t in (c.term.get("arg_tys") or []):
+        m = re.search(r"fn\(.*\{([A-Za-z_][\w:]*)(?:::<.*>)?\}$", t)
+        if m:
+            out.append(m.group(1))
+    return out
 
 
 def closure_users(parent, closure_key):
